@@ -129,7 +129,7 @@ def rcoord(rng, mode):
     if mode == 'tie':
         return float(int(rng.integers(-50, 4000))) + 0.5
     if mode == 'large':
-        return float(rng.uniform(-1e6, 1e7))
+        return float(rng.uniform(-1e6, 1e7)) if rng.random() < 0.7 else float(rng.choice([2 ** 31 - 1, 2 ** 31, 2 ** 31 + 600, -2 ** 31 - 5, 2 ** 33, 4.2e9]))      # also beyond 32 bits
     if mode == 'neg':
         return float(-rng.uniform(0, 500))
     return float(rng.uniform(-50, 4000))
